@@ -38,6 +38,10 @@ class PropCheck:
     uses_cli = False
 
     # --- to override
+    def run_impl(self, cases):
+        """observations of the implementation, one line per case (default: the Rust harness)"""
+        return C.run_harness(self.harness_mode, [(c.src, c.mods) for c in cases], self.budget, self.depth, tag=self.id)
+
     def corpus(self):
         return []
 
@@ -92,7 +96,7 @@ def evaluate(prop, cases):
     """run the implementation and the model on the cases; returns per-case records"""
     if hasattr(prop, "prepare"):
         prop.prepare(cases)
-    impl = C.run_harness(prop.harness_mode, [(c.src, c.mods) for c in cases], prop.budget, prop.depth, tag=prop.id)
+    impl = prop.run_impl(cases)
     recs = []
     items = []
     idx = []
